@@ -5,20 +5,9 @@
    Tensors are (shape, flat row-major data).  Matrix inverse roots are NOT computed: the stored
    preconditioners are oracle answers (checked against the root spec by C01's certificate);
    square roots are computed by an integer square root on 2^-40-scaled rationals (sqrt_q). *)
-From Precond Require Import Base.PyLib Base.QMat Base.Tensor C06.Records C06.Ref.
+From Precond Require Import Base.PyLib Base.QMat Base.PyFloat Base.Tensor C06.Records C06.Ref.
 From Coq Require Import QArith Qround.
 Open Scope Q_scope.
-
-(* ---------- square root to 40 fractional bits ---------- *)
-Definition sqrt_bits : positive := 40.
-Definition sqrt_q (x : Q) : Q :=
-  if Qleb x 0 then 0
-  else
-    let s := Zpos (2 ^ (2 * sqrt_bits))%positive in
-    let n := Qfloor (x * inject_Z s) in
-    (Z.sqrt n) # (2 ^ sqrt_bits)%positive.
-
-Definition vnorm (v : vec) : Q := sqrt_q (qnorm (dot v v)).
 
 (* ---------- tensors (Base.Tensor, over Q) ---------- *)
 Notation tensor := (Base.Tensor.tensor Q) (only parsing).
@@ -68,8 +57,6 @@ Record cfg := mkcfg {
   c_skip_rank_lt : Z; c_skip_dim_gt : Z
 }.
 
-Definition eps25 : Q := 1 # (10 ^ 25)%positive.
-
 Definition transformed_shape (c : cfg) (shape : list Z) : list Z :=
   if c_best_effort c then merge_small_dims shape (c_merge c) else shape.
 
@@ -117,47 +104,5 @@ Definition preconditioned_grad (c : cfg) (shape : list Z) (grad : vec) (ps : lis
   let out := map (fun '(b, pb) => precondition_block b (slots should pb)) (combine blocks pss) in
   t_data (merge_partitions splits out).
 
-(* ---------- _transform_grad ---------- *)
-Definition vmul (x y : vec) : vec := map (fun '(a, b) => a * b) (combine x y).
-Definition vdiv (x y : vec) : vec := map (fun '(a, b) => a / b) (combine x y).
-Definition vsign (x : vec) : vec := map (fun a => if Qltb 0 a then 1 else if Qltb a 0 then -(1) else 0) x.
-
-Record pstate := mkps { s_diag : vec; s_dmom : vec; s_mom : vec }.
-
-(* returns (update, new diag stats, new diag momentum, new momentum) *)
-Definition transform (c : cfg) (step : Z) (skip : bool) (param grad pgrad : vec) (s : pstate)
-  : vec * pstate :=
-  let g := c_graft c in
-  let normalized := ((g =? 4) || (g =? 6))%Z in
-  let scaled := if normalized then vscale (/ (vnorm grad + eps25)) grad else grad in
-  let w1 := c_beta2 c in
-  let w2 := w2_of (c_beta2 c) in
-  let new_diag :=
-    if ((g =? 2) || (g =? 6))%Z then vadd (s_diag s) (vmul scaled scaled)
-    else if ((g =? 3) || (g =? 4))%Z then vadd (vscale w1 (s_diag s)) (vscale w2 (vmul scaled scaled))
-    else s_diag s in
-  let graft :=
-    if ((g =? 2) || (g =? 6) || (g =? 3) || (g =? 4))%Z
-    then vdiv scaled (map (fun d => sqrt_q d + c_diag_eps c) new_diag)
-    else if ((g =? 1) || (g =? 0))%Z then grad
-    else vsign grad in
-  let pm := if c_decoupled_lr c then 1 else c_lr c in
-  let graft := vscale pm graft in
-  let pg := if skip then graft else pgrad in
-  let mult := if (g =? 0)%Z then 1 else vnorm graft / (vnorm pg + eps25) in
-  let su := vscale mult pg in
-  let coupled := negb (Qeq_bool (c_wd c) 0) && negb (c_decoupled_wd c) in
-  let su_wd := if coupled then vadd su (vscale (c_wd c) param) else su in
-  let gu_wd := if coupled then vadd graft (vscale (c_wd c) param) else graft in
-  let w := if c_moving_avg c then 1 - c_beta1 c else 1 in
-  let su_m := vadd (vscale (c_beta1 c) (s_mom s)) (vscale w su_wd) in
-  let gu_m := vadd (vscale (c_beta1 c) (s_dmom s)) (vscale w gu_wd) in
-  let run := (c_start c <=? step)%Z in
-  let mom_u := if run then su_m else gu_m in
-  let wd_u := if run then su_wd else gu_wd in
-  let nest := if c_nesterov c then vadd (vscale w wd_u) (vscale (c_beta1 c) mom_u) else mom_u in
-  let dwd := negb (Qeq_bool (c_wd c) 0) && c_decoupled_wd c in
-  let wd_lr := if c_decoupled_lr c then 1 else c_lr c in
-  let nest := if dwd then vadd nest (vscale (wd_lr * c_wd c) param) else nest in
-  let mm := if c_decoupled_lr c then c_lr c else 1 in
-  (vscale (- mm) nest, mkps new_diag gu_m su_m).
+(* _transform_grad itself is NOT hand-modelled: see C02.Ref.transform_grad (translated from source). *)
+Definition eps25 : Q := 1 # (10 ^ 25)%positive.
